@@ -176,6 +176,17 @@ def cminOp (args : List String) : String :=
     | [] => "bad-op"
   | _, _, _ => "bad-op"
 
+def genOp (args : List String) : String :=
+  match (kv args "pkg").bind hexArg, (kv args "svc").bind hexArg, (kv args "m").bind hexArg, (kv args "go").bind hexArg,
+        kv args "cs", kv args "ss" with
+  | some pkg, some svc, some m, some go, some cs, some ss =>
+    let s : ServiceDesc := { pkg := pkg, name := svc, methods := [] }
+    let md : MethodDesc := { name := m, goName := go, clientStreaming := cs == "1", serverStreaming := ss == "1" }
+    let kind := match rpcKind md with
+      | .unary => "unary" | .clientStream => "client" | .serverStream => "server" | .bidi => "bidi"
+    s!"url={hexOut (clientURLSuffix s md)} mux={hexOut (muxPattern s md)} proc={hexOut (handlerProcedure s md)} prefix={hexOut (mountPrefix s)} field={hexOut (unexport go)} kind={kind}"
+  | _, _, _, _, _, _ => "bad-op"
+
 def step (line : String) : String :=
   match (line.trimAscii.toString.splitOn " ") with
   | ["code.str", n] => match n.toNat? with
@@ -247,6 +258,7 @@ def step (line : String) : String :=
     | none => "bad-op"
   | "neg" :: args => negOp args
   | "cmin" :: args => cminOp args
+  | "gen" :: args => genOp args
   | "icpt" :: args => icptOp args
   | "recover" :: args => recoverOp args
   | ["canary"] => "canary-model"
